@@ -207,7 +207,13 @@ func runC19(c *core.Ctx, idx int) {
 	c19Empty(c, r, st, g0(r, env.w))
 	// the first queries of this object store: literals that differ in letter case or inner blanks only, one right after
 	// the other - each selects the objects holding exactly its own string
-	for _, pair := range [][2]string{{"a", "A"}, {"A", "a"}, {"ab", "AB"}, {"a b", "a  b"}, {"a  b", "a b"}} {
+	// (the last pairs come after a case-insensitive query over the same field: the objects are what they were)
+	for pi, pair := range [][2]string{{"a", "A"}, {"A", "a"}, {"ab", "AB"}, {"a b", "a  b"}, {"a  b", "a b"}, {"a", "ab"}, {"b", "A"}} {
+		if pi == 5 {
+			for _, text := range []string{`s icontains "a" sort by id`, `s not icontains "B"`, `s icontains "A" or grp icontains "a"`} {
+				_, _, _ = os.QueryEntities(text)
+			}
+		}
 		for _, lit := range pair {
 			text := "s = " + ql.Lit(lit) + " sort by id"
 			ents, n, err := os.QueryEntities(text)
